@@ -48,8 +48,9 @@ theorem plus_occurrence_iff (cfg : Config) (l r : Node) (sp : Span) (h : cfg.plu
 `R cfg d sp0 n` counts the `+` / `+=` / template / `recv.m(..)` occurrences that the specification (`ownOcc`, written from the
 property text) requires for the hook site `(d, sp0)` in the positions of `n` that the operation visitor
 reaches — everything but the operands of `delete`, the substitutions of a template that has a literal
-one, nested blocks and arrow functions (those belong to the block visitor) and optional chains (not
-claimed here).  `cq (qAt d sp0) t` counts the hook calls of `t` named `d` with span `sp0`. -/
+one, nested blocks and arrow functions (those belong to the block visitor) and the inside of an optional
+chain that is lowered (`noOpt`: one that reaches a configured method; every other optional chain, `a?.b(x + y)`,
+is walked through like any expression).  `cq (qAt d sp0) t` counts the hook calls of `t` named `d` with span `sp0`. -/
 
 /-- the specification's `+` occurrence is what `R` counts for a `+` node -/
 theorem required_plus_is_counted (cfg : Config) (op : String) (l r : Node) (sp : Span) (o : Occ)
@@ -84,7 +85,7 @@ theorem visit_instruments_required_operations (cfg : Config) (d : String) (sp0 :
   (visit_cover cfg (okCfg cfg) (cfgOk_dsts cfg) d sp0 f root n s h0 ht hs hfo).1
 
 /-- **C04 for `+`, `+=`, template literals and `recv.m(..)`, per block** (PARTIAL with respect to the property:
-    `X.prototype.m.call|apply(..)`, `recv?.m(..)` and occurrences inside optional chains are decided by the coverage oracle, and "every block of
+    `X.prototype.m.call|apply(..)`, `recv?.m(..)` and occurrences inside optional chains that are lowered are decided by the coverage oracle, and "every block of
     the file is entered" is not part of the statement).  Every block statement the block visitor enters —
     at any depth, in any state that is not cancelled, the block not mentioning the hook namespace and
     with parser-shaped `+=` targets — comes back, unless the run is cancelled or out of fuel, with at
@@ -131,8 +132,9 @@ theorem block_occurs_in_parent (B : Node) (n k : Node) (hk : k ∈ n.kids) (h : 
 
 /-- **C04 for `+`, `+=`, template literals and `recv.m(..)`, for every block statement of the file**
     (PARTIAL with respect to the property: `X.prototype.m.call|apply(..)`, `recv?.m(..)` and occurrences
-    inside optional chains are decided by the coverage oracle, and so are the bodies of arrow functions
-    written without braces — `x => x + y` becomes a block only during the rewrite).  For every
+    inside optional chains that are lowered are decided by the coverage oracle; the bodies of arrow functions
+    written without braces — `x => x + y` becomes a block only during the rewrite — have their own theorem
+    below).  For every
     configuration, fuel and program that does not mention the hook namespace and has parser-shaped `+=`
     targets: unless the rewrite is refused or the model runs out of fuel, **every** block statement `B` of
     the program — function bodies, bare blocks, loop / `if` / `try` bodies, class method bodies, closures
@@ -161,12 +163,18 @@ theorem every_block_statement_is_instrumented_partial (cfg : Config) (fuel : Nat
     · exact Nat.le_trans this (cq_insertPrologue_le _ _ _)
     · exact this
 
+/-- an optional chain that is not lowered is walked through: what is required in `a?.b(x + y)` includes what
+    is required in its arguments -/
+theorem required_inside_unlowered_chain (cfg : Config) (d : String) (sp0 : Span) (o : Bool) (b : Node) (sp : Span)
+    (h : noOpt cfg (.optChain o b sp) = true) : R cfg d sp0 (.optChain o b sp) = R cfg d sp0 b := by
+  rw [R_eq]; simp [reqOwn, visitedKids, h]
+
 /-! ### arrow functions written without braces -/
 
 /-- how `1 ≤ va cfg A n` ("the arrow function `A` sits at a position of `n` the operation visitor reaches")
     is built: an expression-bodied arrow function is reached in itself, and in every node that has it under
     a visited child (`visitedKids`: not the operand of `delete`, not a template with a literal substitution,
-    not an optional chain, not a nested block, not another arrow function) -/
+    not an optional chain that is lowered, not a nested block, not another arrow function) -/
 theorem arrow_reached_in_itself (cfg : Config) (ps : List Node) (e : Node) (at' : String) (sp : Span)
     (he : isBlockNode e = false) : 1 ≤ va cfg (.arrow ps e at' sp) (.arrow ps e at' sp) := by
   rw [va_eq, beq_self]; simp [isExprArrow, he]
@@ -206,7 +214,7 @@ theorem required_in_wrapped_body (cfg : Config) (d : String) (sp0 : Span) (ps : 
     the same way as `every_block_statement_is_instrumented_partial`.  For every block statement `B1` of the
     program and every expression-bodied arrow function `A = (ps) => e` at a position of one of `B1`'s
     statements that the operation visitor reaches (so: not in the operand of `delete`, not inside a template
-    literal that has a literal substitution, not inside an optional chain or another arrow function — the
+    literal that has a literal substitution, not inside an optional chain that is lowered or another arrow function — the
     documented exclusions, and the ones this theorem leaves to the oracle), unless the rewrite is refused
     or the model runs out of fuel: the body is wrapped into a block, that block is entered, and the output
     has a hook call of the expected name and span for every operation required in `e`. -/
